@@ -219,7 +219,10 @@ class SimulatorWorkerThread(Thread):
                         print("Simulator run interrupted by exception:")
                         print(str(e))
                         traceback.print_exc()
-                if self._job._replication_state == ReplicationState.ENDING:
+                # when end_replication() is called by a handler that is 
+                # executed by step(), step() has to finish first
+                if (self._job._replication_state == ReplicationState.ENDING
+                        and not self._job.is_starting_or_running()):
                     with self._job._state_lock:
                         self._job._replication_state = ReplicationState.ENDED
                         self._job._run_state = RunState.ENDED
@@ -444,6 +447,9 @@ class Simulator(EventProducer, SimulatorInterface, Generic[TIME]):
             self.fire_timed(self._simulator_time,
                             Simulator.STOP_EVENT, None)
             self._run_state = RunState.STOPPED
+            if self._replication_state == ReplicationState.ENDING:
+                # end_replication() was called during this step
+                self.__worker.wakeup()
 
     def _stop_impl(self):
         """Implementation of the stop behavior."""
